@@ -314,6 +314,17 @@ def energy_relations(rng, tier):
                 except Exception:  # noqa
                     dev = float("inf")
                 ev.append({"e": "rel", "group": "C16:moduli-conversion(%s)" % nm, "name": tag, "c": "eq" if dev <= 1e-8 else "gt", "want": "eq"})
+                # the same pair through the StrainEnergy setters (matrix and precipitate): the stiffness stored is that of the moduli given
+                for setter, attr in (("setModuli", "unrotated_cMatrix_4th"), ("setModuliPrecipitate", "unrotated_cPrec_4th")):
+                    try:
+                        se_ = StrainEnergy()
+                        getattr(se_, setter)(**kw)
+                        got4 = np.asarray(getattr(se_, attr), dtype=float)
+                        want4 = EF.convert2To4rankTensor(want)
+                        dev4 = float(np.max(np.abs(got4 - want4)) / np.max(np.abs(want4)))
+                    except Exception:  # noqa
+                        dev4 = float("inf")
+                    ev.append({"e": "rel", "group": "C16:moduli-conversion(%s) through %s" % (nm, setter), "name": tag, "c": "eq" if dev4 <= 1e-8 else "gt", "want": "eq"})
         # sphere quadrature: monomials x^a y^b z^c with a + b + c <= stated order
         ev += quadrature_relations()
     except Exception as ex:  # noqa
